@@ -367,6 +367,8 @@ pub struct Handler {
 
     /// Future handling inbound reservation request.
     reservation_request_future: Option<ReservationRequestFuture>,
+    /// Number of inbound reservation requests reported to the behaviour and not answered yet.
+    pending_reservation_requests: usize,
     /// Timeout for the currently active reservation.
     active_reservation: Option<Delay>,
 
@@ -415,6 +417,7 @@ impl Handler {
             queued_events: Default::default(),
             idle_at: None,
             reservation_request_future: Default::default(),
+            pending_reservation_requests: 0,
             circuit_accept_futures: Default::default(),
             circuit_deny_futures: Default::default(),
             circuits: Default::default(),
@@ -529,6 +532,7 @@ impl ConnectionHandler for Handler {
                 inbound_reservation_req,
                 addrs,
             } => {
+                self.pending_reservation_requests = self.pending_reservation_requests.saturating_sub(1);
                 if self
                     .reservation_request_future
                     .replace(ReservationRequestFuture::Accepting(
@@ -543,6 +547,7 @@ impl ConnectionHandler for Handler {
                 inbound_reservation_req,
                 status,
             } => {
+                self.pending_reservation_requests = self.pending_reservation_requests.saturating_sub(1);
                 if self
                     .reservation_request_future
                     .replace(ReservationRequestFuture::Denying(
@@ -664,6 +669,7 @@ impl ConnectionHandler for Handler {
         loop {
             match self.inbound_workers.poll_unpin(cx) {
                 Poll::Ready(Ok(Ok(Either::Left(inbound_reservation_req)))) => {
+                    self.pending_reservation_requests += 1;
                     return Poll::Ready(ConnectionHandlerEvent::NotifyBehaviour(
                         Event::ReservationReqReceived {
                             inbound_reservation_req,
@@ -834,16 +840,23 @@ impl ConnectionHandler for Handler {
             }
         }
 
-        // Check active reservation.
-        if let Some(Poll::Ready(())) = self
-            .active_reservation
-            .as_mut()
-            .map(|fut| fut.poll_unpin(cx))
-        {
-            self.active_reservation = None;
-            return Poll::Ready(ConnectionHandlerEvent::NotifyBehaviour(
-                Event::ReservationTimedOut {},
-            ));
+        // Check active reservation. Not while a reservation request is in flight: the behaviour
+        // counts the reservation of this connection as active from the moment it accepts the
+        // (renewal) request. Reporting the old reservation as timed out before the outcome of
+        // the request would make the behaviour forget the connection in between.
+        let request_in_flight =
+            self.pending_reservation_requests > 0 || self.reservation_request_future.is_some();
+        if !request_in_flight {
+            if let Some(Poll::Ready(())) = self
+                .active_reservation
+                .as_mut()
+                .map(|fut| fut.poll_unpin(cx))
+            {
+                self.active_reservation = None;
+                return Poll::Ready(ConnectionHandlerEvent::NotifyBehaviour(
+                    Event::ReservationTimedOut {},
+                ));
+            }
         }
 
         // Progress reservation request.
